@@ -457,10 +457,26 @@ def _validate_policy(namespace):
         # rule from the policy file isn't '!' (which YAML reads as null
         # unless it is quoted) then this means there was an error parsing it.
         if (str(enforcer.rules[name]) == '!' and
-                unparsed_policies[name] not in ('!', None)):
+                not _is_deny_rule(unparsed_policies[name])):
             print('Failed to parse rule:', unparsed_policies[name])
             return_code = 1
     return return_code
+
+
+def _is_deny_rule(text):
+    """Whether a rule as written in the file is the deny rule '!' itself.
+
+    White space around it and balanced parentheses do not change that.
+    """
+    if text is None:
+        # YAML reads an unquoted ! as null
+        return True
+    if not isinstance(text, str):
+        return False
+    text = text.strip()
+    while text.startswith('(') and text.endswith(')'):
+        text = text[1:-1].strip()
+    return text == '!'
 
 
 def _convert_policy_json_to_yaml(namespace, policy_file, output_file=None):
